@@ -103,6 +103,11 @@ def run_units(prop, modname, units, tier, jobs=None):
     a job explores at most PATHS_PER_JOB paths and hands the unexplored decision prefixes
     back; these are re-submitted as new jobs (work sharing across the 16 cores)."""
     timeout_ms = 20000 if tier == "quick" else 120000
+    try:  # a busy machine slows every solver call down: scale the per-query budget with the load so verdicts do not flip
+        load = os.getloadavg()[0] / float(os.cpu_count() or 16)
+    except OSError:
+        load = 0.0
+    timeout_ms = int(timeout_ms * min(4.0, max(1.0, load)))
     paths_per_job = 10
     n = jobs or 16
     ctx = mp.get_context("fork")
